@@ -1,11 +1,204 @@
 (* C03 — Every builtin computes its documented function on all argument types.
-   Statements only; every theorem is closed by [exact] of a lemma proved under coq/c03/. *)
-From Coq Require Import List ZArith NArith String.
-From Verif Require Import common.Sexp common.Int64 gen.GenFuncTable c03.JV c03.Core c03.Ops c03.Natives c03.Dispatch c03.Spec c03.TableProofs.
+   Statements only; every theorem is closed by [exact] of a lemma proved under coq/c03/.
+   Model: coq/c03/{JV,Core,Ops,Natives,Dispatch}.v (one Gallina function per native of func.go /
+   operator.go, the four Go number representations as distinct constructors, every Go operation that
+   can panic as an explicit Panic outcome).  Spec: coq/c03/Spec.v (documented functions over
+   mathematical values; [denote] forgets the number representation).
+   Oracles (Section variables, never axioms): pf = strconv.ParseFloat, ff = float formatting of
+   encoder.go, l1 l2 l3 lp = libm, jd = encoding/json decoder.
+   Hypothesis pf_bigint (stated where used): ParseFloat of the decimal digits of an integer is the
+   correctly rounded double (Z2F = Flocq round-to-nearest-even), +-Inf beyond the range. *)
+From Coq Require Import List ZArith NArith Bool String.
+From Flocq Require Import IEEE754.BinarySingleNaN.
+From Verif Require Import common.Sexp common.Int64 gen.GenFuncTable
+  c03.JV c03.FloatText c03.Core c03.Ops c03.Natives c03.Dispatch c03.Spec c03.Wf c03.TableProofs
+  c03.NoPanic3 c03.DispatchTotal c03.Denote c03.CompareDoc c03.OpsDoc c03.NativesDoc c03.RepIndep c03.Run.
 Import ListNotations.
+Open Scope Z_scope.
 
-(* The model's table of natives (names, arity masks, iter flags, Go callees) is the table translated
+(* 0. The model's table of natives (names, arity masks, iter flags, Go callees) is the table translated
    from func.go of the current tree: a native added, removed or re-wired breaks this. *)
 Theorem C03_table_in_sync : table_diff func_table = [].
 Proof. exact table_in_sync. Qed.
 Print Assumptions C03_table_in_sync.
+
+(* 1. dispatch_total: every modelled native (150 names: all of internalFuncs except the specially
+   compiled ones, regular expressions and time), called with an argument count its table entry accepts,
+   on ANY input and arguments (the input free of the internal delpaths placeholder), for ANY oracles,
+   returns a value or an error -- never a Go panic (index out of range, slice bounds, failed type
+   assertion, TypeOf/encode of a non-value). *)
+Theorem C03_dispatch_total :
+  forall pf ff l1 l2 l3 jd lp fuel name v args o,
+    hole_free v = true -> arity_ok name (List.length args) = true ->
+    call_native pf ff l1 l2 l3 jd lp fuel name v args = Some o -> np o.
+Proof. exact dispatch_total. Qed.
+Print Assumptions C03_dispatch_total.
+
+(* 2. Compare (sort order, ==, <, min, max, unique, indices, array difference, range) is the documented
+   total order on denotations. *)
+Theorem C03_compare_is_documented_order :
+  forall pf, (forall z, big_to_float pf z = Z2F z) ->
+  forall l r, wf l = true -> wf r = true -> compare pf l r = cmp_Z (mcmp (denote pf l) (denote pf r)).
+Proof. exact compare_doc. Qed.
+Print Assumptions C03_compare_is_documented_order.
+
+(* 3. meets_doc, operators: the full 7x7 type dispatch of + - * / % on arbitrary well-formed operands
+   (null identity, exact integers in every representation, float arithmetic, string concatenation /
+   repetition with the n<0, fractional, huge rules, array concatenation / difference, object merge and
+   recursive merge); [agrees]: a value denoting the documented value, or an error where an error is
+   documented. *)
+Theorem C03_operators_meet_doc : forall pf, (forall z, big_to_float pf z = Z2F z) ->
+  forall l r, wf l = true -> wf r = true ->
+     agrees pf (op_add pf l r) (s_add (denote pf l) (denote pf r))
+  /\ agrees pf (op_sub pf l r) (s_sub (denote pf l) (denote pf r))
+  /\ agrees pf (op_mul pf l r) (s_mul (denote pf l) (denote pf r))
+  (* division: every operand pair except string/string (splitting is judged by the correspondence run) *)
+  /\ ((forall s t, l = JStr s -> r = JStr t -> False) -> agrees pf (op_div pf l r) (s_div (denote pf l) (denote pf r)))
+  /\ agrees pf (op_mod pf l r) (s_mod (denote pf l) (denote pf r))
+  /\ (forall (t : Z -> bool) (t' : comparison -> bool), (forall c, t (cmp_Z c) = t' c) ->
+        agrees pf (op_cmp pf t l r) (s_cmp t' (denote pf l) (denote pf r)))
+  /\ agrees pf (op_alt l r) (SVal (match denote pf l with MNull | MBool false => denote pf r | _ => denote pf l end)).
+Proof.
+  exact (fun pf H l r WL WR =>
+    conj (op_add_doc pf H l r WL WR) (conj (op_sub_doc pf H l r WL WR) (conj (op_mul_doc pf H l r WL WR)
+    (conj (op_div_doc pf H l r WL WR) (conj (op_mod_doc pf H l r WL WR)
+    (conj (fun t t' Ht => op_cmp_doc pf H t t' l r WL WR Ht) (op_alt_doc pf l r WL))))))).
+Qed.
+Print Assumptions C03_operators_meet_doc.
+
+(* the int kernels are exact: an int when the result fits, the exact *big.Int otherwise *)
+Theorem C03_int_kernels_exact : forall l r, in_int l -> in_int r ->
+  num_int (add_int l r) = Some (l + r) /\ num_int (sub_int l r) = Some (l - r) /\ num_int (mul_int l r) = Some (l * r).
+Proof. intros l r Hl Hr. exact (conj (proj1 (add_int_exact l r Hl Hr)) (conj (proj1 (sub_int_exact l r Hl Hr)) (proj1 (mul_int_exact l r Hl Hr)))). Qed.
+Print Assumptions C03_int_kernels_exact.
+
+(* 4. meets_doc, natives (first batch; the others with an entry in Spec.v -- contains, inside, indices,
+   index, rindex, add, flatten, min, max, sort, unique, transpose, implode, ascii_*case, getpath, split,
+   _index, _slice, rtrimstr, endswith, trimstr -- are judged against Spec.v by the correspondence run) *)
+Theorem C03_natives_meet_doc : forall pf v x, wf v = true -> wf x = true ->
+     (not_literal v -> agrees pf (f_length v) (s_length (denote pf v)))
+  /\ (not_literal v -> agrees pf (f_abs v) (s_abs (denote pf v)))
+  /\ agrees pf (f_utf8bytelength v) (s_utf8bytelength (denote pf v))
+  /\ agrees pf (f_keys v) (s_keys (denote pf v))
+  /\ agrees pf (f_has pf v x) (s_has (denote pf v) (denote pf x))
+  /\ agrees pf (f_reverse v) (s_reverse (denote pf v))
+  /\ agrees pf (f_type v) (s_type (denote pf v))
+  /\ agrees pf (f_explode v) (s_explode (denote pf v))
+  /\ agrees pf (f_startswith v x) (s_str2 (fun s t => MBool (s_startswith s t)) (denote pf v) (denote pf x))
+  /\ agrees pf (f_ltrimstr v x) (s_str2 (fun s t => MStr (s_ltrimstr s t)) (denote pf v) (denote pf x)).
+Proof.
+  exact (fun pf v x WV WX =>
+    conj (f_length_doc pf v WV) (conj (f_abs_doc pf v WV) (conj (f_utf8bytelength_doc pf v WV) (conj (f_keys_doc pf v WV)
+    (conj (f_has_doc pf v x WV WX) (conj (f_reverse_doc pf v WV) (conj (f_type_doc pf v WV) (conj (f_explode_doc pf v WV)
+    (conj (f_startswith_doc pf v x WV WX) (f_ltrimstr_doc pf v x WV WX)))))))))).
+Qed.
+Print Assumptions C03_natives_meet_doc.
+
+(* 5. rep_independent.  The conversions every numeric argument goes through (toFloat, toInt,
+   toIntCeil) and Compare depend on the denotation only -- for integers of ANY size in int / *big.Int /
+   json.Number, and for a float64 against ANY fraction/exponent literal that parses to it (in particular
+   magnitudes up to 2^53 and literals beyond the double range, which denote the same infinity). *)
+Theorem C03_conversions_rep : forall pf, (forall z, big_to_float pf z = Z2F z) ->
+  forall v w, wf v = true -> wf w = true -> denote pf v = denote pf w ->
+     to_float pf v = to_float pf w /\ to_int pf v = to_int pf w
+  (* toIntCeil: the statement the defect fixed by "slice end given as a fractional json.Number is rounded
+     up like a float" violated *)
+  /\ to_int_ceil pf v = to_int_ceil pf w.
+Proof.
+  exact (fun pf H v w WV WW E => conj (to_float_rep pf H v w WV WW E) (conj (to_int_rep pf v w WV WW E) (to_int_ceil_rep pf v w WV WW E))).
+Qed.
+Print Assumptions C03_conversions_rep.
+Theorem C03_compare_rep : forall pf, (forall z, big_to_float pf z = Z2F z) ->
+  forall l l' r r', wf l = true -> wf l' = true -> wf r = true -> wf r' = true ->
+  denote pf l = denote pf l' -> denote pf r = denote pf r' -> compare pf l r = compare pf l' r'.
+Proof. exact compare_rep. Qed.
+Print Assumptions C03_compare_rep.
+(* operators: same denoted result, or an error on both sides; comparison operators: identical outcomes *)
+Theorem C03_operators_rep : forall pf, (forall z, big_to_float pf z = Z2F z) ->
+  rep2 pf (op_add pf) /\ rep2 pf (op_sub pf) /\ rep2 pf (op_mul pf) /\ rep2 pf (op_div pf) /\ rep2 pf (op_mod pf)
+  /\ (forall t l r l' r', wf l = true -> wf r = true -> wf l' = true -> wf r' = true ->
+       denote pf l = denote pf l' -> denote pf r = denote pf r' -> op_cmp pf t l r = op_cmp pf t l' r').
+Proof.
+  exact (fun pf H => conj (op_add_rep pf H) (conj (op_sub_rep pf H) (conj (op_mul_rep pf H) (conj (op_div_rep pf H)
+    (conj (op_mod_rep pf H) (op_cmp_rep pf H)))))).
+Qed.
+Print Assumptions C03_operators_rep.
+(* all 58 math natives (libm oracles included): identical outcomes; isnan; has *)
+Theorem C03_math_rep : forall pf, (forall z, big_to_float pf z = Z2F z) ->
+     (forall l1 name v v', wf v = true -> wf v' = true -> denote pf v = denote pf v' -> f_math1 pf l1 name v = f_math1 pf l1 name v')
+  /\ (forall l2 name x y x' y', wf x = true -> wf y = true -> wf x' = true -> wf y' = true ->
+       denote pf x = denote pf x' -> denote pf y = denote pf y' -> f_math2 pf l2 name x y = f_math2 pf l2 name x' y')
+  /\ (forall l3 name a b c a' b' c', wf a = true -> wf b = true -> wf c = true -> wf a' = true -> wf b' = true -> wf c' = true ->
+       denote pf a = denote pf a' -> denote pf b = denote pf b' -> denote pf c = denote pf c' ->
+       f_math3 pf l3 name a b c = f_math3 pf l3 name a' b' c')
+  /\ (forall v v', wf v = true -> wf v' = true -> denote pf v = denote pf v' -> oeq pf (f_isnan pf v) (f_isnan pf v'))
+  /\ rep2 pf (f_has pf).
+Proof.
+  exact (fun pf H => conj (f_math1_rep pf H) (conj (f_math2_rep pf H) (conj (f_math3_rep pf H) (conj (f_isnan_rep pf H) (f_has_rep pf))))).
+Qed.
+Print Assumptions C03_math_rep.
+(* text-producing builtins: equal text for values with the same canonical number texts *)
+Theorem C03_tojson_rep_canonical : forall ff v v', canon ff v = canon ff v' -> f_tojson ff v = f_tojson ff v'.
+Proof. exact f_tojson_rep. Qed.
+Print Assumptions C03_tojson_rep_canonical.
+(* ... and the unrestricted statement is refuted (literal 1.0 vs float 1): sanctioned by C10 *)
+Theorem C03_tojson_rep_refuted :
+  exists v v', wf v = true /\ wf v' = true /\
+    mv_eqb (denote parse_float_text v) (denote parse_float_text v') = true /\
+    f_tojson fmt_float v <> f_tojson fmt_float v'.
+Proof. exact tojson_rep_refuted. Qed.
+Print Assumptions C03_tojson_rep_refuted.
+
+(* ---- the full statements, for the record (partial: see docs/C03.md) ---------------------------- *)
+(* every native with an entry in Spec.v agrees with it on all well-formed inputs *)
+Definition C03_meets_doc_full : Prop :=
+  forall pf ff l1 l2 l3 jd lp, (forall z, big_to_float pf z = Z2F z) ->
+  forall fuel name v args s, wf v = true -> forallb wf args = true ->
+    spec_call pf name v args = Some s ->
+    match call_native pf ff l1 l2 l3 jd lp fuel name v args, s with
+    | Some (Val (ROne x)), SVal m => denote pf x = m
+    | Some (Err _), SErr => True
+    | _, _ => False
+    end.
+(* every native is representation independent (text-producing ones on canonical literals) *)
+Definition C03_rep_independent_full : Prop :=
+  forall pf ff l1 l2 l3 jd lp, (forall z, big_to_float pf z = Z2F z) ->
+  forall fuel name v v' args args', wf v = true -> wf v' = true -> forallb wf args = true -> forallb wf args' = true ->
+    canon ff v = canon ff v' -> map (canon ff) args = map (canon ff) args' ->
+    match call_native pf ff l1 l2 l3 jd lp fuel name v args, call_native pf ff l1 l2 l3 jd lp fuel name v' args' with
+    | Some (Val (ROne x)), Some (Val (ROne x')) => denote pf x = denote pf x'
+    | Some (Val (RSeq xs c)), Some (Val (RSeq xs' c')) => map (denote pf) xs = map (denote pf) xs' /\ c = c'
+    | Some (Err _), Some (Err _) => True
+    | None, None => True
+    | _, _ => False
+    end.
+
+(* ---- non-vacuity ------------------------------------------------------------------------------- *)
+(* dispatch_total is about calls that do reach the dangerous Go operations: with the executable oracles,
+   implode on non-code-points, a slice with start > end, getpath through mismatched types, flatten with a
+   negative depth, transpose of non-arrays, an index far outside: values or errors. *)
+Example C03_nonvacuous_dispatch :
+  let call name v args := x_call 40%nat name v args in
+  call "implode"%string (JArr [jint 1114112; jint (-1); jint 55296]) [] = Some (Val (ROne (JStr [239; 191; 189; 239; 191; 189; 239; 191; 189]%N)))
+  /\ call "_slice"%string JNull [JArr [jint 1; jint 2; jint 3]; jint 1; jint 2] = Some (Val (ROne (JArr [])))
+  /\ call "getpath"%string (JObj [([97%N], jint 1)]) [JArr [JStr [97%N]; JStr [98%N]]] = Some (Err EFunc1Type)
+  /\ call "flatten"%string (JArr []) [jint (-1)] = Some (Err EFlattenDepth)
+  /\ call "transpose"%string (JArr [JArr [jint 1]; jint 2]) [] = Some (Err EFunc0Type)
+  /\ call "_index"%string JNull [JArr [jint 1]; jint (2 ^ 63 - 1)] = Some (Val (ROne JNull))
+  /\ call "_multiply"%string JNull [JStr [97%N]; jint 2147483647] = Some (Err ERepeatTooLarge).
+Proof. vm_compute. repeat split; reflexivity. Qed.
+(* the hypothesis pf_bigint holds for the executable ParseFloat stand-in on boundary integers (a
+   sample, not a proof: the stand-in is compared with Go's strconv on every float of the run) *)
+Example C03_pf_bigint_sample :
+  forallb (fun z => fsame (big_to_float parse_float_text z) (Z2F z))
+    [2 ^ 63; - 2 ^ 63 - 1; 2 ^ 64 + 1; 9007199254740993 * 2 ^ 11; 10 ^ 30; - 10 ^ 308; 10 ^ 309; 2 ^ 1024; 2 ^ 1024 - 2 ^ 970] = true.
+Proof. vm_compute. reflexivity. Qed.
+(* well-formed values in all four number representations with one denotation *)
+Example C03_nonvacuous_rep :
+  let d := denote parse_float_text in
+  wf (JNum (NLit (codes "18446744073709551616"))) = true
+  /\ mv_eqb (d (JNum (NBig (2 ^ 64)))) (d (JNum (NLit (codes "18446744073709551616")))) = true
+  /\ mv_eqb (d (JNum (NInt 7))) (d (JNum (NLit (codes "7")))) = true
+  /\ mv_eqb (d (JNum (NFlt (finf false)))) (d (JNum (NLit (codes "1e1000")))) = true
+  /\ mv_eqb (d (JNum (NFlt (F_of_ZE 3 (-1) false)))) (d (JNum (NLit (codes "1.5")))) = true.
+Proof. vm_compute. repeat split; reflexivity. Qed.
